@@ -125,6 +125,11 @@ def run_property(prop, tier, seed):
             wv = api.want_values(ob) if ob.kind != 'cover' else None
             text = smt.to_smt2(ob.pc, ob.goal, negate=True, mention=wv or ()) if ob.kind != 'cover' else smt.to_smt2(ob.pc, None)
             jobs.append(((p.full, k), text, [t.sexpr() for t in wv] if wv else None, p.timeout or timeout))
+        # vacuity canary: some complete path must be satisfiable together with the library axioms
+        if r.path_pcs:
+            idxs = sorted({0, len(r.path_pcs) // 2, len(r.path_pcs) - 1})
+            for i in idxs:
+                jobs.append(((p.full, 'canary', i), smt.to_smt2(r.path_pcs[i], None), None, 5))
     results = {}
     by_timeout = {}
     for key, text, wv, to in jobs:
@@ -157,6 +162,11 @@ def run_property(prop, tier, seed):
     for p, r in runs:
         if r is None:
             continue
+        can = [results[k] for k in results if k[0] == p.full and len(k) == 3 and k[1] == 'canary']
+        if can and all(c.status == 'unsat' for c in can):
+            errors.append(f"vacuity: every sampled complete path of {p.full} is unsatisfiable together with the axioms "
+                          f"(inconsistent axioms or contradictory precondition)")
+            bump(3)
         for k, v in r.used.items():
             if v.get('in_repo'):
                 functions[f"{v['path']}::{v['qualname']}"] = dict(lines=v['lines'], sha256=v['sha256'])
@@ -288,9 +298,13 @@ def run_property(prop, tier, seed):
                     print(f"KNOWN-FINDING: property={prop} {kf['id']}: {kf['what']}")
                     printed.add(kf['id'])
 
+    seen_obs = set()
     for v in violations:
+        if v['obligation'] in seen_obs or len(seen_obs) >= 8:
+            continue
+        seen_obs.add(v['obligation'])
         tail = " no-failing-input-found" if v.get('no_input') else ""
-        print(f"VIOLATION property={prop} replay={v['replay']}{tail}")
+        print(f"VIOLATION property={prop} replay={v['replay']}{tail}   # {v['obligation']}")
     for u in undecided:
         print(f"UNDECIDED {json.dumps(u, default=str)[:600]}")
     for e in errors:
